@@ -1,3 +1,4 @@
+import Oidc.Proofs.CodeVerify
 import Oidc.Shapes
 import Oidc.Proofs.Limiter2
 import Oidc.Proofs.Verify
@@ -88,5 +89,53 @@ theorem text_New_ok : Oidc.Shapes.Text_New := by unfold Oidc.Shapes.Text_New; rf
 /-! ## Program text of the helpers these theorems also rest on (constructors, accessors, token endpoint, configuration) -/
 theorem text_Config_Validate_ok : Oidc.Shapes.Text_Config_Validate := by unfold Oidc.Shapes.Text_Config_Validate; rfl
 theorem text_CreateConfig_ok : Oidc.Shapes.Text_CreateConfig := by unfold Oidc.Shapes.Text_CreateConfig; rfl
+
+/-! ## The same statements about the code itself: the functions below are `Oidc.Generated.Code`, which `tools/go2lean` translates
+    from /repo's source, statement by statement, on every run (meaning of the Go constructs: `Oidc/GoLib.lean`) -/
+open Oidc.Generated Oidc.CodeRefine in
+/-- main.go `VerifyToken` as translated: a verification the limiter refuses is not performed — the answer is the refusal and the
+    state is the one the cache lookup and the limiter left, whatever parsing, key set, signature check and revocation list would
+    have said (the result does not depend on the instance's verification functions at all) -/
+theorem code_refused_not_performed {σ : Type} (ops : Go.VOps σ) (now : Int) (t t' : Go.Inst) (tok : Go.Str) (w : σ)
+    (hmiss : (ops.tokenCacheGet w now tok).1.2 = false)
+    (hrefuse : (ops.limiterAllow (ops.tokenCacheGet w now tok).2 now).1 = false) :
+    Code.TraefikOidc_VerifyToken ops now t tok w = Code.TraefikOidc_VerifyToken ops now t' tok w ∧
+    (Code.TraefikOidc_VerifyToken ops now t tok w).1.isSome = true ∧
+    (Code.TraefikOidc_VerifyToken ops now t tok w).2 = (ops.limiterAllow (ops.tokenCacheGet w now tok).2 now).2 := by
+  have key : ∀ t : Go.Inst, Code.TraefikOidc_VerifyToken ops now t tok w =
+      (some ['r','a','t','e',' ','l','i','m','i','t',' ','e','x','c','e','e','d','e','d'], (ops.limiterAllow (ops.tokenCacheGet w now tok).2 now).2) := by
+    intro t
+    unfold Code.TraefikOidc_VerifyToken Code.TraefikOidc_performPreVerificationChecks
+    obtain ⟨tcg, tcs, tcd, blg, bls, la⟩ := ops
+    simp only at hmiss hrefuse ⊢
+    rcases hg : tcg w now tok with ⟨⟨claims, found⟩, w1⟩
+    rw [hg] at hmiss hrefuse
+    simp only at hmiss hrefuse
+    subst hmiss
+    rcases hl : la w1 now with ⟨ok, w2⟩
+    rw [hl] at hrefuse
+    simp only at hrefuse
+    subst hrefuse
+    simp
+  rw [key t, key t']
+  exact ⟨rfl, rfl, rfl⟩
+
+open Oidc.Generated Oidc.CodeRefine in
+/-- the limiter is consulted at most once per call and only after a cache miss: a cached token is accepted without touching it -/
+theorem code_cached_unlimited {σ : Type} (ops : Go.VOps σ) (now : Int) (t : Go.Inst) (tok : Go.Str) (w : σ)
+    (hhit : (ops.tokenCacheGet w now tok).1.2 = true) (hne : (ops.tokenCacheGet w now tok).1.1 ≠ []) :
+    Code.TraefikOidc_VerifyToken ops now t tok w = (none, (ops.tokenCacheGet w now tok).2) := by
+  unfold Code.TraefikOidc_VerifyToken
+  obtain ⟨tcg, tcs, tcd, blg, bls, la⟩ := ops
+  simp only at hhit hne ⊢
+  rcases hg : tcg w now tok with ⟨⟨claims, found⟩, w1⟩
+  rw [hg] at hhit hne
+  simp only at hhit hne
+  subst hhit
+  have hlen : decide ((claims.length : Int) > 0) = true := by
+    cases claims with
+    | nil => exact absurd rfl hne
+    | cons a l => simp
+  simp only [hlen, Bool.and_self, if_true]
 
 end Oidc.Props.C19
